@@ -511,6 +511,82 @@ func runeChars(s string) []string {
 	return out
 }
 
+// runServeDirtyStatic: static routes whose patterns are not in canonical form (nothing forbids registering
+// them). A request equal to such a pattern up to the trailing slash has a slash-adjusted match, but its path
+// is not clean, so no redirect may be issued (C08, C17).
+func runServeDirtyStatic(r *Run, rng *rand.Rand) {
+	patterns := []string{"/a//b/", "/a/../b/", "/c/./d", "/e//f", "/g/h/", "/k/..", "/m/./"}
+	rt, err := fox.New(fox.WithRedirectTrailingSlash(true), fox.WithMiddlewareFor(fox.RedirectHandler, redirectProbe), fox.WithNoRouteHandler(specialHandler("noroute", 404)))
+	if err != nil {
+		failTool("fox.New: %v", err)
+	}
+	var table []string
+	idx := map[string]int{}
+	for _, m := range []string{"GET", "POST"} {
+		for _, p := range patterns {
+			rt.MustHandle(m, p, routeHandler(m+" "+p))
+			table = append(table, fmt.Sprintf("[m |-> %s, pat |-> %s, opt |-> \"red\"]", tlaStr(m), tlaChars(p)))
+			idx[m+" "+p] = len(table)
+		}
+	}
+	gen := fmt.Sprintf("---- MODULE Gen_ObsServe ----\nGenTable == <<%s>>\nGenCfg == [noMethod |-> FALSE, autoOptions |-> FALSE]\nGenHost == %s\n====\n",
+		strings.Join(table, ",\n  "), tlaChars("h.example"))
+	var obs []map[string]any
+	var desc []string
+	for _, m := range []string{"GET", "POST"} {
+		for _, p := range patterns {
+			for _, path := range []string{p, strings.TrimSuffix(p, "/"), p + "/"} {
+				if path == "" {
+					continue
+				}
+				req, cp := newRequest(m, "h.example", path, "")
+				w := newPlainWriter()
+				rt.ServeHTTP(w, req)
+				o := map[string]any{"m": m, "path": runeChars(path), "query": "", "kind": "", "route": 0, "params": [][][]string{}, "code": w.status,
+					"routed": strings.Split(path, "/"), "resolved": []string{}, "resolvedquery": ""}
+				switch {
+				case cp.ran != 1:
+					o["kind"] = fmt.Sprintf("%d handlers ran", cp.ran)
+				case cp.handler == "redirect":
+					o["kind"] = "redirect"
+					base := &url.URL{Scheme: "http", Host: "h.example", Path: path}
+					if lu, e := url.Parse(w.h.Get("Location")); e == nil {
+						o["resolved"] = strings.Split(base.ResolveReference(lu).Path, "/")
+					}
+				case cp.handler == "noroute":
+					o["kind"] = "noroute"
+				default:
+					o["kind"] = "route"
+					o["route"] = idx[cp.handler]
+				}
+				obs = append(obs, o)
+				desc = append(desc, fmt.Sprintf("%s %s -> %v (Location %q)", m, path, o["kind"], w.h.Get("Location")))
+			}
+		}
+	}
+	rejected := map[int]json.RawMessage{}
+	var mu sync.Mutex
+	res := r.runTLC(tlcOpts{Module: "Obs_Serve", Tag: "dirty", Gen: map[string]string{"Gen_ObsServe.tla": gen}, Files: map[string]string{"obs.ndjson": obsFile(obs)},
+		Timeout: 5 * time.Minute,
+		OnVec: func(b []byte) {
+			var v struct {
+				I    int             `json:"i"`
+				Want json.RawMessage `json:"want"`
+			}
+			if json.Unmarshal(b, &v) == nil {
+				mu.Lock()
+				rejected[v.I] = v.Want
+				mu.Unlock()
+			}
+		}})
+	res.mustClean("Obs_Serve (non-canonical static routes)")
+	for i, want := range rejected {
+		r.violation(fmt.Sprintf("serve-trace non-canonical route: %s", desc[i-1]), map[string]any{"kind": "trace", "request": desc[i-1], "prescribed": want, "obtained": obs[i-1]})
+	}
+	r.addCov("non_canonical_route_requests_validated", int64(len(obs)))
+	r.addCov("traces_validated_against_impl", int64(len(obs)))
+}
+
 func runServeD2(r *Run, rng *rand.Rand, owner string) {
 	patterns := []string{"/{x}/", "/d/{x}", "/e/{x}/{y}/", "/s/*{w}/end", "/t/{x}/end/", "/i/{x}/"}
 	methods := []string{"GET", "POST", "CONNECT"}
